@@ -162,12 +162,19 @@ def run_case(case):
     store_in_file = set()
     get_file = None
     if mode != 'memory':
-        store_in_file = {CT}
         tmpdir = tempfile.mkdtemp(prefix='vp_c07_', dir=os.environ.get('VP_TMP') or None)
         if mode == 'tempfile':
             ae = applicationentity.ClientAE('VERIF')
         else:
             ae = pynetdicom2.ClientStorageAE(tmpdir, 'VERIF')
+        # the set of file-backed SOP classes comes from a really configured entity: a plain service and a
+        # store-in-file service for the same class, registered in either order
+        from ..assoc import Recorder
+        plain, filesvc = Recorder('plain', [CT]), Recorder('file', [CT], store_in_file=True)
+        order = (plain, filesvc) if (case.get('pad', 0) + ml) % 2 else (filesvc, plain)
+        for svc in order:
+            ae.add_scu(svc)
+        store_in_file = ae.store_in_file
         get_file = ae.get_file
     contexts = {pc: asceprovider.PContextDef(pc, uid.UID(sop), uid.UID(ts))}
     ncomp = 0
